@@ -100,6 +100,7 @@ func ConflatedContext(contexts ...context.Context) (ctx context.Context, cancel 
 func ChainAfterFunc(ctx context.Context, other context.Context, f func()) {
 	stop := context.AfterFunc(other, f)
 	context.AfterFunc(ctx, func() {
+		verifPoint(verifChainPrimaryFired)
 		if stop() {
 			// Stopped f from being run. Because this closure will only trigger
 			// on ctx cancel, and we otherwise never stop either hooks, this is
